@@ -12,6 +12,7 @@ CONSTANTS
   MayRevert = {1}
   CheckAdmission = TRUE
   BestChoices = {TRUE}
+  ChildOfBestIsBest = FALSE
   UseConflicts = TRUE
   TxTable <- TxTable3
 INVARIANT NeverIndexedPath
